@@ -314,9 +314,17 @@ type c03Finder struct {
 	inner *Default
 	res   agd.DeviceResult
 	calls int
+	// prime, if not nil, is returned (once) instead of asking the real finder:
+	// the result of an unrelated EARLIER request through the same middleware.
+	prime agd.DeviceResult
 }
 
 func (f *c03Finder) Find(ctx context.Context, req *dns.Msg, raddr, laddr netip.AddrPort) (r agd.DeviceResult) {
+	if f.prime != nil {
+		r, f.prime = f.prime, nil
+
+		return r
+	}
 	f.calls++
 	f.res = f.inner.Find(ctx, req, raddr, laddr)
 	return f.res
@@ -888,6 +896,27 @@ func c03Run(t testing.TB, rng *rand.Rand, v c03Vec, pws []c03Pw) (ev c03Event) {
 	})
 	ctx := dnsserver.ContextWithRequestInfo(context.Background(), sri)
 	rw := dnsserver.NewNonWriterResponseWriter(laddr, raddr)
+	// an unrelated earlier request of somebody else through the same middleware (whose
+	// request context is recycled): what it was recognised as must leave no trace
+	switch rng.Intn(5) {
+	case 0:
+		rec.prime = &agd.DeviceResultOK{
+			Device:  &agd.Device{ID: "stale001", Auth: &agd.AuthSettings{Enabled: false, PasswordHash: agdpasswd.AllowAuthenticator{}}},
+			Profile: c03NewProfile("stalepr1", []agd.DeviceID{"stale001"}, false),
+		}
+	case 1:
+		rec.prime = &agd.DeviceResultAuthenticationFailure{Err: fmt.Errorf("stale authentication failure")}
+	case 2:
+		rec.prime = &agd.DeviceResultUnknownDedicated{Err: fmt.Errorf("stale unknown dedicated")}
+	case 3:
+		rec.prime = &agd.DeviceResultError{Err: fmt.Errorf("stale error")}
+	}
+	if rec.prime != nil {
+		preq := new(dns.Msg).SetQuestion("earlier.example.", dns.TypeA)
+		_ = mw.Wrap(dnsserver.HandlerFunc(func(context.Context, dnsserver.ResponseWriter, *dns.Msg) error { return nil })).ServeDNS(
+			ctx, dnsserver.NewNonWriterResponseWriter(laddr, c03NetAddr(rng, netw, netip.MustParseAddr("203.0.113.200"), 4444)), preq)
+		rec.prime = nil
+	}
 	mwErr := mw.Wrap(next).ServeDNS(ctx, rw, req)
 	ev.MwErr = mwErr != nil
 	if mwErr != nil {
